@@ -5,6 +5,7 @@ package main
 import (
 	"fmt"
 	"go/types"
+	"regexp"
 	"sort"
 	"strings"
 	"sync"
@@ -19,8 +20,23 @@ type Comp struct {
 
 var layoutCache sync.Map
 
+var byteRe = regexp.MustCompile(`\bbyte\b`)
+var runeRe = regexp.MustCompile(`\brune\b`)
+var typeKeyCache sync.Map
+
 func typeKey(t types.Type) string {
-	return types.TypeString(t, func(p *types.Package) string { return p.Name() })
+	if v, ok := typeKeyCache.Load(t); ok {
+		return v.(string)
+	}
+	s := types.TypeString(t, func(p *types.Package) string { return p.Name() })
+	if strings.Contains(s, "byte") {
+		s = byteRe.ReplaceAllString(s, "uint8")
+	}
+	if strings.Contains(s, "rune") {
+		s = runeRe.ReplaceAllString(s, "int32")
+	}
+	typeKeyCache.Store(t, s)
+	return s
 }
 
 func intWidth(b *types.Basic) (w int, signed bool, ok bool) {
@@ -133,7 +149,8 @@ type LVal struct {
 type Val struct {
 	T  types.Type
 	C  []*Term
-	LV *LVal // for pointer values that are interior addresses
+	LV *LVal  // for pointer values that are interior addresses
+	CS *State // contract expressions only: state in which the contents of a slice value are read (old(...))
 }
 
 func (v Val) String() string {
